@@ -32,10 +32,10 @@ PLANS = {
         quick=[("walk", "hash,hashes", ["-plies", "24"], 12, 5000), ("searchops", "", [], 4, 9000)],
         thorough=[("walk", "hash,hashes", ["-plies", "40"], 12, 50000), ("searchops", "", [], 4, 90000)]),
     "C04": dict(
-        quick=[("play", "hash", ["-plies", "60"], 5, 5000), ("walk", "hash", ["-plies", "20"], 4, 5000),
-               ("transp", "", [], 4, 1200), ("searchops", "", [], 3, 9000)],
-        thorough=[("play", "hash", ["-plies", "80"], 5, 50000), ("walk", "hash", ["-plies", "30"], 4, 50000),
-                  ("transp", "", [], 4, 12000), ("searchops", "", [], 3, 90000)]),
+        quick=[("play", "hash", ["-plies", "60"], 4, 5000), ("walk", "hash", ["-plies", "20"], 3, 5000), ("shuffle", "hash", ["-plies", "200"], 2, 5000),
+               ("transp", "", [], 3, 1200), ("searchops", "", [], 3, 9000), ("zkeys", "", [], 1, 1)],
+        thorough=[("play", "hash", ["-plies", "80"], 4, 50000), ("walk", "hash", ["-plies", "30"], 3, 50000), ("shuffle", "hash", ["-plies", "300"], 2, 50000),
+                  ("transp", "", [], 3, 12000), ("searchops", "", [], 3, 90000), ("zkeys", "", [], 1, 1)]),
     "C05": dict(
         quick=[("positions", "gen", [], 9, 6000), ("play", "gen", ["-plies", "40"], 5, 6000), ("ucimoves", "", [], 2, 60)],
         thorough=[("positions", "gen", [], 9, 60000), ("play", "gen", ["-plies", "60"], 5, 60000), ("ucimoves", "", [], 2, 600)]),
